@@ -189,6 +189,7 @@ type SymOpts struct {
 	Pure      func(name string) bool          // calls that are functions of their arguments (no Seq, no trace)
 	LoopBound int                             // how many times a block may be re-entered on one path (0: loops abort the path)
 	Assume    func(cond *T) (bool, bool)      // fixes the outcome of a branch condition (value, decided) to restrict the enumeration
+	NoReturn  func(name string) bool          // calls that terminate the process (log.Fatal…): the path ends with outcome kind "exit"
 }
 
 type symState struct {
@@ -778,6 +779,11 @@ func (sy *Sym) execCall(fn *ssa.Function, b *ssa.BasicBlock, i int, x *ssa.Call,
 		return
 	}
 	t := &T{Op: "call", Name: name, Args: args, Typ: x.Type()}
+	if sy.opts.NoReturn != nil && sy.opts.NoReturn(name) {
+		st.trace = append(st.trace, Event{Kind: "call", Name: name, Args: args, Result: t, Pos: x.Pos()})
+		k("exit", name, nil, st, x.Pos())
+		return
+	}
 	if !sy.opts.Pure(name) {
 		st.seq[name]++
 		if st.seq[name] > 1 {
